@@ -39,6 +39,10 @@ const (
 	c17Root  = "/tmp/vc17"
 	c17RootX = "/tmp/vc17x"
 
+	// c17DataDir is the DataDir of every DNSFilter of this harness: fixed, so
+	// that locations inside it are reproducible input.
+	c17DataDir = c17Root + "/data"
+
 	c17OldURL  = "http://lists.example/h0.txt"
 	c17OldBody = "||h0.example^\n"
 	c17NewBody = "||h1.example^\n"
@@ -62,12 +66,16 @@ var c17Files = []string{
 	c17Root + "/other/safe/e.txt",
 	c17Root + "/safe2/f.txt",
 	c17Root + "/top.txt",
+	c17DataDir + "/userfilters/u.txt",
+	c17DataDir + "/userfilters/v.lst",
+	c17DataDir + "/custom.txt",
 	c17RootX + "/g.txt",
 }
 
 var c17Dirs = []string{
 	c17Root, c17Root + "/safe", c17Root + "/safe/sub", c17Root + "/other", c17Root + "/other/safe",
 	c17Root + "/safe2", c17RootX, "/", "/tmp", "/etc",
+	c17DataDir, c17DataDir + "/userfilters", c17DataDir + "/filters",
 }
 
 var c17Missing = []string{
@@ -88,6 +96,9 @@ type c17World struct {
 var (
 	c17Once sync.Once
 	c17W    *c17World
+
+	// c17Cwd is the working directory, c17CwdFile a recognisable file in it.
+	c17Cwd, c17CwdFile string
 )
 
 func c17Normalise(data []byte) (out string, ok bool) {
@@ -154,11 +165,22 @@ func c17Setup() *c17World {
 				},
 			},
 		}
-		dir, err := os.MkdirTemp("", "vc17-data-")
-		if err != nil {
+		w.dataDir = c17DataDir
+		if err := os.MkdirAll(filepath.Join(c17DataDir, filterDir), 0o755); err != nil {
 			panic(err)
 		}
-		w.dataDir = dir
+		// a file in the working directory of the server process
+		if wd, err := os.Getwd(); err == nil {
+			c17Cwd = wd
+			if data, rerr := os.ReadFile(filepath.Join(wd, "path.go")); rerr == nil {
+				if norm, ok := c17Normalise(data); ok {
+					if _, dup := w.byContent[norm]; !dup {
+						w.byContent[norm] = filepath.Join(wd, "path.go")
+						c17CwdFile = filepath.Join(wd, "path.go")
+					}
+				}
+			}
+		}
 		c17W = w
 	})
 
@@ -174,7 +196,6 @@ func c17Teardown() {
 		c17Seq = nil
 	}
 	c17W.srv.Close()
-	_ = os.RemoveAll(c17W.dataDir)
 	_ = os.RemoveAll(c17Root)
 	_ = os.RemoveAll(c17RootX)
 }
@@ -292,6 +313,15 @@ func c17TakeList(f []string) (items, rest []string) {
 // c17NewFilter creates a DNSFilter with the given patterns and initial lists.
 // obs is non-nil when filtering.New rejects the patterns.
 func c17NewFilter(w *c17World, pats []string, filters []FilterYAML) (d *DNSFilter, obs []string) {
+	if len(pats) == 0 {
+		// "no patterns configured" comes as nil and as a zero-length list
+		c17EmptyToggle = !c17EmptyToggle
+		if c17EmptyToggle {
+			pats = []string{}
+		} else {
+			pats = nil
+		}
+	}
 	conf := &Config{
 		FilteringEnabled: true,
 		SafeFSPatterns:   pats,
@@ -359,6 +389,8 @@ func c17RunEntry(op string, pats []string, loc string, enabled bool) (obs []stri
 
 	return c17Exec(w, d, fdir, op, loc, enabled)
 }
+
+var c17EmptyToggle bool
 
 // c17Seq is the long-lived instance of the sequence mode: ONE DNSFilter per
 // block, so that anything the implementation remembers between requests
@@ -629,6 +661,21 @@ func c17Pattern(r *rand.Rand, t string) string {
 	default:
 		return vutil.Pick(r, []string{"/etc/*", "/etc/hostname", "/etc/passw[d]", "/*/passwd", c17RootX + "/*", c17Root + "*/*"})
 	}
+}
+
+// c17DataTarget is a location inside the data directory's conventional
+// sub-directories, the data directory itself, or the working directory.
+func c17DataTarget(r *rand.Rand) string {
+	ts := []string{
+		c17DataDir + "/userfilters/u.txt", c17DataDir + "/userfilters/u.txt", c17DataDir + "/userfilters/v.lst",
+		c17DataDir + "/custom.txt", c17DataDir + "/userfilters", c17DataDir, c17DataDir + "/filters",
+		c17DataDir + "/userfilters/none.txt",
+	}
+	if c17CwdFile != "" {
+		ts = append(ts, c17CwdFile, c17Cwd)
+	}
+
+	return vutil.Pick(r, ts)
 }
 
 func c17Target(r *rand.Rand) string {
@@ -952,6 +999,15 @@ func c17Gen(r *rand.Rand, emit vutil.Emit) {
 			op := vutil.Pick(r, []string{"C17.add", "C17.seturl", "C17.refresh"})
 			t := c17Target(r)
 			pats := c17Pats(r, t)
+			if r.IntN(8) == 0 {
+				// nothing configured: the data directory's own sub-directories
+				// must not become readable by default
+				t = c17DataTarget(r)
+				pats = nil
+				if r.IntN(4) == 0 {
+					pats = []string{c17Root + "/safe/*"}
+				}
+			}
 			loc := c17Spell(r, t, 0)
 			if op == "C17.refresh" && r.IntN(40) == 0 {
 				loc += "\xff"
@@ -1042,11 +1098,17 @@ func c17GenSeq(r *rand.Rand, emit vutil.Emit) {
 			d2 := vutil.Pick(r, dirs)
 			pats = append(pats, c17NarrowPattern(r, d2, byDir[d2]))
 		}
+		dataBlock := r.IntN(10) == 0
+		if dataBlock {
+			pats = nil
+		}
 		emit(append([]string{"C17.conf"}, c17HexList(pats)...)...)
 		steps := 5 + r.IntN(10)
 		for s := 0; s < steps; s++ {
 			var t string
 			switch x := r.IntN(20); {
+			case dataBlock && x < 16:
+				t = c17DataTarget(r)
 			case x < 14:
 				t = vutil.Pick(r, files)
 			case x < 16:
